@@ -43,6 +43,8 @@ def run(chk):
 
     if not chk.broken:
         call_cases(chk)
+    if not chk.broken:
+        overlap_cases(chk)
 
 
 def call_cases(chk):
@@ -144,7 +146,308 @@ def call_cases(chk):
         break
 
 
+# ---------------------------------------------------------------------------------------------------
+# overlapping call()s / emits with a callback (coq/Manager/AckOverlap.v, drivers/ackoverlap.py)
+# ---------------------------------------------------------------------------------------------------
+OV_CLIENTS = [('e0', '/'), ('e0', '/chat'), ('e1', '/')]
+OV_ARGS = [[], [0], [None], ['pong'], [[1, 2]], [{'a': 1}], [1, 'b'], [None, None], ['a', 2, False]]
+
+
+class _Mirror:
+    """Bookkeeping the generator needs to propose ENABLED events (which operations are sending /
+    waiting, which ids were issued).  It decides nothing: the Coq model re-derives all of it."""
+
+    def __init__(self, n_clients):
+        self.tasks = {}
+        self.next = [1] * n_clients
+        self.live = [True] * n_clients
+        self.table = {}
+
+    def apply(self, e):
+        k = e[0]
+        if k == 'start':
+            _, t, kind, c = e
+            self.tasks[t] = {'kind': kind, 'c': c, 'id': self.next[c], 'phase': 'sending', 'got': False}
+            self.table[(c, self.next[c])] = t
+            self.next[c] += 1
+        elif k == 'sent':
+            t = self.tasks[e[1]]
+            t['phase'] = 'done' if (t['kind'] == 'emit' or t['got']) else 'waiting'
+        elif k == 'timeout':
+            self.tasks[e[1]]['phase'] = 'done'
+        elif k == 'ack':
+            _, c, i, _a = e
+            t = self.table.pop((c, i), None) if self.live[c] else None
+            if t is not None:
+                t = self.tasks[t]
+                t['got'] = True
+                if t['kind'] == 'call' and t['phase'] == 'waiting':
+                    t['phase'] = 'done'
+        elif k == 'disc':
+            c = e[1]
+            self.live[c] = False
+            for key in [x for x in self.table if x[0] == c]:
+                del self.table[key]
+
+    def close(self, rng, events):
+        """Let every operation finish: complete the sends, then acknowledge or time out the waits."""
+        for t in sorted(self.tasks):
+            if self.tasks[t]['phase'] == 'sending':
+                e = ('sent', t)
+                events.append(e)
+                self.apply(e)
+        for t in sorted(self.tasks, key=lambda x: (rng.random(), x)):
+            d = self.tasks[t]
+            if d['phase'] == 'waiting':
+                if self.live[d['c']] and (d['c'], d['id']) in self.table and rng.random() < 0.6:
+                    e = ('ack', d['c'], d['id'], rng.choice(OV_ARGS))
+                else:
+                    e = ('timeout', t)
+                events.append(e)
+                self.apply(e)
+
+
+def ov_random(rng, thorough):
+    n_clients = rng.choice([1, 1, 1, 2, 3])
+    clients = OV_CLIENTS[:n_clients]
+    m = _Mirror(n_clients)
+    events = []
+    max_tasks = rng.choice([2, 2, 3, 3, 4] + ([5] if thorough else []))
+    n = rng.randint(5, 16 if thorough else 12)
+    for _ in range(n):
+        sending = [t for t, d in m.tasks.items() if d['phase'] == 'sending']
+        waiting = [t for t, d in m.tasks.items() if d['phase'] == 'waiting']
+        live = [c for c in range(n_clients) if m.live[c]]
+        cands = []
+        if len(m.tasks) < max_tasks and live:
+            cands += ['start'] * 4
+        if sending:
+            cands += ['sent'] * 3
+        if waiting:
+            cands += ['timeout'] * 2
+        if m.tasks:
+            cands += ['ack'] * 4
+        if live and m.tasks and rng.random() < 0.15:
+            cands += ['disc']
+        if not cands:
+            break
+        k = rng.choice(cands)
+        if k == 'start':
+            c = live[0] if rng.random() < 0.7 else rng.choice(live)
+            e = ('start', len(m.tasks), 'call' if rng.random() < 0.7 else 'emit', c)
+        elif k == 'sent':
+            e = ('sent', rng.choice(sending))
+        elif k == 'timeout':
+            e = ('timeout', rng.choice(waiting))
+        elif k == 'disc':
+            e = ('disc', rng.choice(live))
+        else:
+            r = rng.random()
+            d = m.tasks[rng.choice(sorted(m.tasks))]
+            if r < 0.75:
+                c, i = d['c'], d['id']                          # the id of an operation (possibly used already)
+            elif r < 0.87:
+                c, i = rng.randrange(n_clients), d['id']        # that id, from some client
+            else:
+                c, i = d['c'], rng.choice([0, m.next[d['c']], m.next[d['c']] + 2])      # zero / never issued
+            e = ('ack', c, i, rng.choice(OV_ARGS))
+        events.append(e)
+        m.apply(e)
+    m.close(rng, events)
+    return {'clients': clients, 'events': events}
+
+
+def ov_directed():
+    """Two operations A (a call() that times out) and B (call() or emit, acknowledged) to the same
+    client: every interleaving of A = start, sent, timeout with B = start, sent, ack (the ACK before
+    or after B's send completes)."""
+    def merges(a, b):
+        if not a:
+            yield list(b)
+        elif not b:
+            yield list(a)
+        else:
+            for r in merges(a[1:], b):
+                yield [a[0]] + r
+            for r in merges(a, b[1:]):
+                yield [b[0]] + r
+    out = []
+    for kind_b in ('call', 'emit'):
+        for ack_first in (False, True):
+            for ia in (0, 1):
+                ib = 1 - ia
+                for mg in merges(['sA', 'tA', 'xA'], ['sB', 'aB', 'tB'] if ack_first else ['sB', 'tB', 'aB']):
+                    ids, nxt, ev = {}, 1, []
+                    for x in mg:
+                        if x == 'sA':
+                            ids['A'] = nxt
+                            nxt += 1
+                            ev.append(('start', ia, 'call', 0))
+                        elif x == 'sB':
+                            ids['B'] = nxt
+                            nxt += 1
+                            ev.append(('start', ib, kind_b, 0))
+                        elif x == 'tA':
+                            ev.append(('sent', ia))
+                        elif x == 'tB':
+                            ev.append(('sent', ib))
+                        elif x == 'xA':
+                            ev.append(('timeout', ia))
+                        else:
+                            ev.append(('ack', 0, ids['B'], ['pong']))
+                    out.append({'clients': OV_CLIENTS[:1], 'events': ev})
+    # three at once: the middle one times out, the others are acknowledged afterwards, in both orders
+    for order in ((1, 3), (3, 1)):
+        out.append({'clients': OV_CLIENTS[:1],
+                    'events': [('start', 0, 'call', 0), ('start', 1, 'call', 0), ('start', 2, 'call', 0),
+                               ('sent', 0), ('sent', 1), ('sent', 2), ('timeout', 1),
+                               ('ack', 0, order[0], ['a']), ('ack', 0, order[1], ['b', 2])]})
+    return out
+
+
+def ov_terms(scn, res):
+    from vt import coqio
+    from vt.coqio import pv, clist, cstr, cN
+    sid = lambda c: cstr('S%d' % c) if c is not None else cstr('?')  # noqa: E731
+
+    def ev(e):
+        k = e[0]
+        if k == 'start':
+            return '(EStart %s %s %s)' % (cN(e[1]), 'KCall' if e[2] == 'call' else 'KEmit', sid(e[3]))
+        if k == 'sent':
+            return '(ESent %s)' % cN(e[1])
+        if k == 'timeout':
+            return '(ETimeout %s)' % cN(e[1])
+        if k == 'disc':
+            return '(EDisc %s)' % sid(e[1])
+        return '(EAck %s %s %s)' % (sid(e[1]), cN(e[2]), clist([pv(a) for a in e[3]]))
+
+    def eff(x):
+        if x[0] == 'Out':
+            return '(XOut %s (frame_id %s))' % (sid(x[1]), pv(x[2]))
+        if x[0] == 'Cb':
+            return '(XCb %s %s)' % (cN(x[1]), clist([pv(a) for a in x[2]]))
+        if x[0] == 'Done':
+            try:
+                return '(XDone %s %s)' % (cN(x[1]), coqio.cres(x[2], pv(x[3]) if x[2] else x[3]))
+            except TypeError:
+                return '(XDone %s (Err OtherError))' % cN(x[1])
+        return 'XBad'
+
+    def dump(d):
+        return clist(['(%s, %s, %s)' % (cstr(s), coqio.copt(nxt, cN), clist([cN(i) for i in ids])) for s, nxt, ids in d])
+    return '(mkOv %s %s %s %s)' % (
+        clist([sid(c) for c in range(len(scn['clients']))]), clist([ev(tuple(e)) for e in scn['events']]),
+        clist(['(%s, %s)' % (clist([eff(x) for x in fx]), dump(d)) for fx, d in res['obs']]),
+        clist([cN(k) for k in res['left']]))
+
+
+def ov_signature(scn, mode, idx, fx=()):
+    """Structural class of the first event whose observation violates the specification."""
+    if idx is None or idx >= len(scn['events']):
+        return 'overlap-%s-model-mismatch' % mode
+    events = [tuple(e) for e in scn['events']]
+    e = events[idx]
+    m = _Mirror(len(scn['clients']))
+    timed_out = set()           # clients for which some call() has timed out so far
+    for x in events[:idx]:
+        if x[0] == 'timeout' and x[1] in m.tasks:
+            timed_out.add(m.tasks[x[1]]['c'])
+        if x[0] in ('sent', 'timeout') and x[1] not in m.tasks:
+            continue
+        m.apply(x)
+    # nothing happened (the acknowledgement was dropped) / something else than its own values was delivered
+    what = 'wrong-delivery' if any(x[0] in ('Done', 'Cb') for x in fx) else 'lost'
+    if e[0] == 'ack':
+        t = m.table.get((e[1], e[2])) if m.live[e[1]] else None
+        if t is not None:
+            return 'overlap-%s-%s-ack-in-time-%s%s' % (mode, m.tasks[t]['kind'], what,
+                                                       '-after-other-timeout' if e[1] in timed_out else '')
+        return 'overlap-%s-stray-ack-has-effect' % mode
+    if e[0] == 'sent' and e[1] in m.tasks and m.tasks[e[1]]['got'] and m.tasks[e[1]]['kind'] == 'call':
+        # the ACK arrived while the send was still in progress; the call() must return it now
+        return 'overlap-%s-call-ack-in-time-%s%s' % (mode, what, '-after-other-timeout' if m.tasks[e[1]]['c'] in timed_out else '')
+    return 'overlap-%s-%s' % (mode, e[0])
+
+
+def overlap_cases(chk, only=None):
+    """Overlapping call()s / emits with a callback on both servers; judged by c06_overlap_eval."""
+    from vt import coqio
+    from drivers import ackoverlap
+    rng = chk.rng
+    if only is None:
+        chk.rule += ('; overlapping call()s / emits with a callback (2-5 operations, 1-3 clients, events start / send '
+                     'completes / ACK arrives / wait times out / client disconnects in any order, threaded and asyncio '
+                     'servers): model AckOverlap.ostep vs implementation (effects + callback table after every event) and '
+                     'specification AckOverlap.sstep on the observation; non-trivial = at least two operations, a timeout '
+                     'and an ACK')
+        chk.trusted_base.append('harness/drivers/ackoverlap.py: baton threads / gated asyncio tasks; eio.create_event and '
+                                'Socket.send replaced on the instance (the only scheduling points of call() and emit())')
+        chk.assumptions.append('overlap scenarios: a send completes and a wait times out exactly when the schedule says '
+                               '(real timeouts are 60 s and never fire); ACK packets are processed atomically between events')
+    scns = ov_directed()
+    n = 1500 if chk.thorough else 260
+    scns += [ov_random(rng, chk.thorough) for _ in range(n)]
+    if only is not None:
+        scns = [only]
+    cases, meta = [], []
+    for scn in scns:
+        for mode in ('sync', 'async'):
+            if only is not None and only.get('mode') not in (None, mode):
+                continue
+            res = ackoverlap.run_scenario(scn, mode)
+            if res['error']:
+                chk.broken_obligation('overlap driver (%s): %s on %r' % (mode, res['error'], scn['events']))
+                continue
+            cases.append(ov_terms(scn, res))
+            meta.append((scn, mode, res))
+            kinds = [e[0] for e in scn['events']]
+            overl = sum(1 for e in scn['events'] if e[0] == 'start') >= 2
+            key = None
+            if overl and 'timeout' in kinds and 'ack' in kinds:
+                key = ('overlap', mode, tuple(tuple(e[:3]) if e[0] != 'ack' else e[:3] for e in map(tuple, scn['events'])))
+            chk.count(1, key, None)
+            chk.dist('overlap: %d operations, %d clients' % (kinds.count('start'), len(scn['clients'])))
+    chk.traces_validated += len(cases)
+    codes, errors = coqio.eval_cases('c06_overlap', 'From VT Require Import Check.C06Check Check.C06CallCheck.', '', 'ov_case', cases,
+                                     'c06_overlap_eval', shard=150)
+    for e in errors:
+        chk.broken_obligation('case evaluation failed: ' + e)
+    bad = sorted(codes, key=lambda i: (0 if codes[i] & 2 else 1, len(meta[i][0]['events']), i))
+    for idx in bad:
+        scn, mode, res = meta[idx]
+        code = codes[idx]
+        first = (code // 4 - 1) if code & 2 else None
+        replay = {'overlap': True, 'mode': mode, 'clients': [list(c) for c in scn['clients']],
+                  'events': [list(e) for e in scn['events']], 'code': code, 'first_violating_event': first,
+                  'observed': repr(res['obs'])}
+        if code & 2:
+            e = scn['events'][first] if first < len(scn['events']) else None
+            chk.violation(ov_signature(scn, mode, first, res['obs'][first][0] if first < len(res['obs']) else ()),
+                          '%s server, overlapping acknowledged operations %r: event #%d %r observed %r, which violates the '
+                          'specification (AckOverlap.sstep)' % (mode, scn['events'], first, e,
+                                                               res['obs'][first][0] if first < len(res['obs']) else None),
+                          replay)
+        elif not any(codes[i] & 2 for i in bad):
+            chk.broken_obligation('overlap model (AckOverlap.ostep) and %s server disagree on %r: observed %r' % (
+                mode, scn['events'], res['obs']))
+            chk.violation('overlap-%s-model-mismatch' % mode, 'model and implementation disagree, no property failure found',
+                          replay, no_input=True)
+            break
+    return codes
+
+
 def replay(chk, data):
+    if data.get('replay', {}).get('overlap'):
+        r = data['replay']
+        scn = {'clients': [tuple(c) for c in r['clients']], 'events': [tuple(e) for e in r['events']], 'mode': r['mode']}
+        codes = overlap_cases(chk, only=scn)
+        print('overlap replay: code', codes)
+        for v in chk.violations:
+            print('  signature=%s: %s' % (v[0], v[1]))
+        for b in chk.broken:
+            print('  BROKEN: ' + b[:1500])
+        return 1 if codes or chk.broken else 0
     if 'ack_args' in data.get('replay', {}):
         print(data['replay'])
         return 1
